@@ -77,7 +77,7 @@ def gen(rng, tier):
                           [rng.randrange(64) for _ in range(4)],
                           {"flag": rng.random() < 0.5, "flag2": rng.random() < 0.5, "k": rng.choice((1, 2, 2, 3, 4)),
                            "n": rng.choice((0, 1, 2, 3)), "bad": rng.random() < 0.12}])
-    return {"nets": nets, "steps": steps,
+    return {"nets": nets, "steps": steps, "sparse": [rng.random() < 0.25 for _ in nets],
             "peer": {"seed": rng.getrandbits(32), "policy": rng.choice(peers.SOLVER_POLICIES), "faults": faults}}
 
 
@@ -308,7 +308,7 @@ def run(case, ctx):
     for net in case["nets"]:
         if ref.wiring_violations(net):
             raise Skip("precondition")
-        pool.append(ref.build(cg, net))
+        pool.append(ref.build(cg, net, sparse=bool(case.get("sparse")) and case["sparse"][len(pool) % len(case["sparse"])]))
         prov.append("initial")
     n_ret = n_raise = n_edit = 0
     last_call_args = set()
